@@ -1,16 +1,49 @@
 import Pog.Props.C20
+import Pog.Lemmas.Imports
+import Pog.Lemmas.Annot
+import Pog.Lemmas.AliasCover
 /-
   C01 — every accepted spec yields a package that compiles and imports.
 
   FULL STATEMENT: for every document the generator accepts and every layout/naming strategy, every
-  emitted file parses and every emitted module imports with only httpx/cattrs available.
+  emitted file parses and every emitted module imports with only httpx/cattrs available; every name in a
+  generated `__all__` resolves.
 
   The generator as a whole is not modelled.  Proved here are the mechanisms the property's anchors
   name; their composition (that every template requests the imports it uses, import order between
   model modules) is only searched by the end-to-end oracle.  Label: partial.
+
+  (a) relative imports
+      ✗ relImport_resolves_full   ∀ cur tgt, tgt ≠ cur → CPython resolves `make_relative_import(cur, tgt)`, inside the
+                                  importing file's `__package__`, to `tgt`            — FALSE of `make_relative_import`:
+        relImport_resolves                         partial   regular module, same top-level package, tgt not below cur
+        relImport_descendant_counterexample        ✗ witness `is_direct_package_import` fires for a regular module
+        relImport_toplevel_counterexample          ✗ witness different top-level package → beyond top-level package
+        relImport_nodir_counterexample             ✗ witness top-level module (empty `__package__`)
+        relImport_init_descendant                  partial   `__init__` of package cur, tgt strictly below cur
+        relImport_init_counterexample              ✗ witness `__init__` of pkg.models importing pkg.client
+      `make_relative_import` is reached only through `ImportCollector.get_import_statements`, whose only caller is
+      `emit/models_emitter.py` — a module nothing imports.  The live path (`RenderContext.add_import` →
+      `calculate_relative_path_for_internal_module`, rendered by `get_formatted_imports`) works on the FILE SYSTEM
+      directory of the current file, which IS its `__package__` for modules and `__init__.py` alike:
+        calcRel_resolves                           full (well-formed names, current file inside the package)
+        calcRel_none_iff                           `None` exactly for the self-import
+  (b) name de-collision: C20.
+  (c) annotation text
+      ✗ annotation_evaluable_full  every formatted annotation whose parts are evaluable is evaluable — FALSE:
+        annotation_evaluable_counterexample        ✗ witness {forward_ref, optional} ↦ `"Node" | None`
+        annotation_evaluable_counterexample_union  ✗ witness optional anyOf/oneOf with ONE self-referencing member
+        annotation_evaluable_partial               partial   ¬(optional ∧ (forward_ref ∨ base is a str literal ∨ base is None))
+        annotation_not_evaluable                   the excluded class always fails (the condition is exact)
+        array_of_self_evaluable                    `List["Node"]`, `List["Node"] | None` are fine
+  (d) exception aliases
+      ✗ aliases_cover_raises_full  every alias class an endpoint raises/imports is defined — FALSE:
+        aliases_cover_raises_partial               partial   declared codes in [400, 600)
+        aliases_cover_raises_counterexample        ✗ witness declared 302 / 101: `Error302` imported, never defined
+        uncovered_iff                              exactly the raised codes outside [400, 600) are uncovered
 -/
 namespace Pog.C01
-open Pog
+open Pog Pog.Imp Pog.Annot Pog.AliasCover
 
 /-- Mechanism (b): class names are pairwise distinct after de-collision, for every list of schema names
     (so no two models are written to one class). -/
@@ -26,5 +59,211 @@ theorem decollide_module_stems_nodup (u : UInfo) (names : List Str) :
 /-- Every class name is an identifier (a `class <name>:` line always parses). -/
 theorem class_name_is_identifier (s : Str) : isPyIdent (sanClass s) = true :=
   Pog.C20.class_name_is_identifier s
+
+/-! ## (a) relative imports -/
+
+/-- `make_relative_import`, importing file = REGULAR MODULE `cur` (so `__package__ = dir(cur)`):
+    for well-formed dotted paths, if `cur` has a non-empty directory whose first component (the top-level
+    package) is also the first component of `tgt`, and `tgt` is not a strict descendant of `cur`, then
+    CPython resolves the computed relative name to `tgt`. -/
+theorem relImport_resolves (cur tgt : List Str) (hc : PathOK cur) (ht : PathOK tgt)
+    (top : Str) (d t : List Str) (hdir : cur.dropLast = top :: d) (htgt : tgt = top :: t)
+    (hnd : ¬ ∃ r, r ≠ [] ∧ tgt = cur ++ r) :
+    pyResolveRel cur.dropLast (relImport (joinDots cur) (joinDots tgt)) = some tgt := by
+  apply relImport_resolves_parts cur tgt hc ht _ hnd
+  rw [hdir, htgt]
+  simp [commonLen]
+
+private def s (x : String) : Str := x.toList
+
+/-- `pkg/endpoints/pets.py` importing `pkg.models.pet`: the hypotheses hold, the answer is `..models.pet`. -/
+example : relImport (s "pkg.endpoints.pets") (s "pkg.models.pet") = s "..models.pet" ∧
+    pyResolveRel [s "pkg", s "endpoints"] (relImport (joinDots [s "pkg", s "endpoints", s "pets"])
+      (joinDots [s "pkg", s "models", s "pet"])) = some [s "pkg", s "models", s "pet"] :=
+  ⟨by decide +kernel,
+   relImport_resolves [s "pkg", s "endpoints", s "pets"] [s "pkg", s "models", s "pet"] (by decide) (by decide)
+    (s "pkg") [s "endpoints"] [s "models", s "pet"] (by decide) (by decide)
+    (by rintro ⟨r, _, h⟩; exact absurd (List.cons.inj (List.cons.inj h).2).1 (by decide))⟩
+
+/-- ✗ `is_direct_package_import` fires for a regular module `a.b` importing `a.b.c`: the answer `.c`
+    resolves to `a.c`. (Cannot arise on a real file system unless both `a/b.py` and `a/b/` exist.) -/
+theorem relImport_descendant_counterexample :
+    relImport (s "a.b") (s "a.b.c") = s ".c" ∧
+    pyResolveRel [s "a"] (relImport (s "a.b") (s "a.b.c")) = some [s "a", s "c"] := by
+  decide +kernel
+
+/-- ✗ different top-level packages: `a.x` importing `b.y` gets `..b.y`, an ImportError
+    ("attempted relative import beyond top-level package"). -/
+theorem relImport_toplevel_counterexample :
+    relImport (s "a.x") (s "b.y") = s "..b.y" ∧
+    pyResolveRel [s "a"] (relImport (s "a.x") (s "b.y")) = none := by
+  decide +kernel
+
+/-- ✗ a top-level module has no parent package: `x` importing `y` gets `.y`, an ImportError. -/
+theorem relImport_nodir_counterexample :
+    relImport (s "x") (s "y") = s ".y" ∧ pyResolveRel [] (relImport (s "x") (s "y")) = none := by
+  decide +kernel
+
+/-- `make_relative_import`, importing file = `__init__.py` of package `cur` (which
+    `get_current_module_dot_path` reports as `cur`, while `__package__ = cur`): the
+    `is_direct_package_import` special case is right for every strict descendant. -/
+theorem relImport_init_descendant (cur r : List Str) (hc : PathOK cur) (hr : PathOK r) :
+    pyResolveRel cur (relImport (joinDots cur) (joinDots (cur ++ r))) = some (cur ++ r) :=
+  Pog.Imp.relImport_init_descendant cur r hc hr
+
+/-- ✗ … and wrong for everything else: `pkg/models/__init__.py` importing `pkg.client` gets `.client`,
+    which CPython resolves to `pkg.models.client`. -/
+theorem relImport_init_counterexample :
+    relImport (s "pkg.models") (s "pkg.client") = s ".client" ∧
+    pyResolveRel [s "pkg", s "models"] (relImport (s "pkg.models") (s "pkg.client"))
+      = some [s "pkg", s "models", s "client"] := by
+  decide +kernel
+
+/-- The LIVE mechanism, `calculate_relative_path_for_internal_module`: the current file is
+    `P/rootc/sub/fname` (any file name, `__init__.py` included), the package root `P/rootc`, the target the
+    module `tparts` below the package root (a directory or a `.py` file, `isDir`).  Whatever is returned
+    resolves, inside the current file's `__package__ = rootc.sub`, to `rootc.tparts`. -/
+theorem calcRel_resolves (P rootc sub tparts : List Str) (fname : Str) (isDir : Bool)
+    (hroot : rootc ≠ []) (ht : PathOK tparts) (hC : ∀ c ∈ rootc ++ sub, CompOK c) (rel : Str)
+    (h : calcRel (P ++ rootc ++ sub ++ [fname]) (P ++ rootc) tparts isDir = some rel) :
+    pyResolveRel (rootc ++ sub) rel = some (rootc ++ tparts) :=
+  calcRel_resolves_parts P rootc sub tparts fname isDir hroot ht hC rel h
+
+/-- `pkg/models/__init__.py` importing `pkg.client` (the case `make_relative_import` gets wrong): `..client`. -/
+example : pyResolveRel [s "pkg", s "models"] (s "..client") = some [s "pkg", s "client"] :=
+  calcRel_resolves [s "tmp"] [s "pkg"] [s "models"] [s "client"] (s "__init__.py") false (by decide) (by decide)
+    (by decide) (s "..client") (by decide +kernel)
+
+/-- `mocks/endpoints/mock_pets.py` importing `models.pet`; `client.py` importing the package `endpoints`. -/
+example :
+    calcRel [s "tmp", s "pkg", s "mocks", s "endpoints", s "mock_pets.py"] [s "tmp", s "pkg"] [s "models", s "pet"] false
+      = some (s "...models.pet") ∧
+    calcRel [s "tmp", s "pkg", s "client.py"] [s "tmp", s "pkg"] [s "endpoints"] true = some (s ".endpoints") ∧
+    calcRel [s "tmp", s "pkg", s "models", s "pet.py"] [s "tmp", s "pkg"] [s "models", s "pet"] false = none := by
+  decide +kernel
+
+/-- `None` is returned exactly for the self-import (target file = current file). -/
+theorem calcRel_none_iff (curFile root tparts : List Str) (isDir : Bool) :
+    calcRel curFile root tparts isDir = none ↔ curFile = targetAbs root tparts isDir :=
+  Pog.Imp.calcRel_none_iff curFile root tparts isDir
+
+/-! ## (c) annotation text -/
+
+/-- The tree-level model renders to exactly the text `_format_resolved_type` returns. -/
+theorem format_text_agrees (r : Resolved) :
+    (formatResolved r).map render = formatText (render r.ty) r.isOptional r.isForwardRef :=
+  render_formatResolved r
+
+/-- ✗ an optional self-reference: `ResolvedType("Node", is_optional, is_forward_ref)` is formatted as
+    `"Node" | None`, a `TypeError` when the class body is executed. -/
+theorem annotation_evaluable_counterexample :
+    evalOK (.name (s "Node")) = true ∧
+    formatText (s "Node") true true = some (s "\"Node\" | None") ∧
+    (formatResolved ⟨.name (s "Node"), true, true⟩).map render = some (s "\"Node\" | None") ∧
+    (formatResolved ⟨.name (s "Node"), true, true⟩).map evalOK = some false := by
+  decide +kernel
+
+/-- ✗ the same through a union: an optional `anyOf`/`oneOf` whose ONLY member is the schema itself. -/
+theorem annotation_evaluable_counterexample_union :
+    (formatResolved (resolveTree (.union [.model (s "Node") true]) false)).map render = some (s "\"Node\" | None") ∧
+    (formatResolved (resolveTree (.union [.model (s "Node") true]) false)).map evalOK = some false := by
+  decide +kernel
+
+/-- If the resolved type evaluates (to kind `k`), a forward reference is a bare name (no `"` inside), and
+    NOT (optional ∧ (forward reference ∨ `k` is a string literal ∨ `k` is `None`)), the formatted annotation
+    evaluates. -/
+theorem annotation_evaluable_partial (r : Resolved) (k : Kind) (hk : evalKind r.ty = some k)
+    (hq : r.isForwardRef = true → '"' ∉ render r.ty)
+    (hc : ¬ (r.isOptional = true ∧ (r.isForwardRef = true ∨ k = .strV ∨ k = .noneV)))
+    (a : Ann) (ha : formatResolved r = some a) : evalOK a = true := by
+  apply format_evaluable r k hk hq _ a ha
+  intro hopt
+  refine ⟨?_, ?_⟩
+  · cases hf : r.isForwardRef with
+    | false => rfl
+    | true => exact absurd ⟨hopt, Or.inl hf⟩ hc
+  · cases k with
+    | ty => exact Or.inl rfl
+    | alias => exact Or.inr rfl
+    | noneV => exact absurd ⟨hopt, Or.inr (Or.inr rfl)⟩ hc
+    | strV => exact absurd ⟨hopt, Or.inr (Or.inl rfl)⟩ hc
+
+/-- optional `List["Node"]`: kind `alias`, not a forward reference — the hypotheses hold. -/
+example : evalOK (.bor (.sub (.name (s "List")) [.quoted (s "Node")]) .none_) = true :=
+  annotation_evaluable_partial ⟨.sub (.name (s "List")) [.quoted (s "Node")], true, false⟩ .alias (by decide +kernel)
+    (by intro h; cases h) (by decide) _ rfl
+
+
+/-- The excluded class really fails: optional ∧ (forward reference ∨ string literal ∨ `None`) is formatted
+    (no legacy `Optional[`, no `| None` yet) to something CPython cannot evaluate. -/
+theorem annotation_not_evaluable (r : Resolved) (k : Kind) (hk : evalKind r.ty = some k)
+    (hq : r.isForwardRef = true → '"' ∉ render r.ty)
+    (hopt : r.isOptional = true) (hbad : r.isForwardRef = true ∨ k = .strV ∨ k = .noneV)
+    (hpre : startsWith (render r.ty) optionalPrefix = false)
+    (hsuf : endsWith (render (quoteIfFwd r.ty r.isForwardRef)) orNoneSuffix = false) :
+    ∃ a, formatResolved r = some a ∧ evalOK a = false :=
+  format_not_evaluable r k hk hq hopt hbad hpre hsuf
+
+/-- the witness of `annotation_evaluable_counterexample` is an instance of the excluded class -/
+example : ∃ a, formatResolved ⟨.name (s "Node"), true, true⟩ = some a ∧ evalOK a = false :=
+  annotation_not_evaluable ⟨.name (s "Node"), true, true⟩ .ty (by decide +kernel) (by intro _; decide +kernel) rfl
+    (Or.inl rfl) (by decide +kernel) (by decide +kernel)
+
+/-- Arrays of the schema itself are fine, optional or not: `List["Node"]`, `List["Node"] | None`. -/
+theorem array_of_self_evaluable (item : Resolved) (k : Kind) (hk : evalKind item.ty = some k)
+    (hq : item.isForwardRef = true → '"' ∉ render item.ty) (required : Bool)
+    (a : Ann) (ha : formatResolved (listOf item required) = some a) : evalOK a = true :=
+  listOf_evaluable item k hk hq required a ha
+
+example : (formatResolved (resolveTree (.arr (.model (s "Node") true)) false)).map render
+    = some (s "List[\"Node\"] | None") := by decide +kernel
+
+/-! ## (d) exception aliases -/
+
+/-- Every declared code in `[400, 600)` that some operation raises has its class generated — for all
+    specs (`ops` = the numeric response codes of each operation). -/
+theorem aliases_cover_raises_partial (ops : List (List Nat)) (op : List Nat) (hop : op ∈ ops)
+    (c : Nat) (hc : c ∈ raisedCodes op) (herr : isErrorCode c = true) :
+    aliasName c ∈ generatedAliases ops.flatten := by
+  unfold generatedAliases
+  apply List.mem_map_of_mem
+  rw [mem_generatedCodes]
+  exact ⟨List.mem_flatten.mpr ⟨op, hop, ((mem_raisedCodes c op).mp hc).1⟩, herr⟩
+
+/-- … and every declared 4xx/5xx code IS raised (its text never starts with `2`). -/
+theorem error_codes_are_raised (op : List Nat) (c : Nat) (hc : c ∈ op) (herr : isErrorCode c = true) :
+    c ∈ raisedCodes op :=
+  (mem_raisedCodes c op).mpr ⟨hc, error_code_not_2xx_text c herr⟩
+
+example : aliasName 404 ∈ generatedAliases [[200, 404], [201, 503]].flatten :=
+  aliases_cover_raises_partial [[200, 404], [201, 503]] [200, 404] (by decide) 404 (by decide +kernel) (by decide)
+
+example : raisedAliases [200, 404, 503] = [s "NotFoundError", s "ServiceUnavailableError"] ∧
+    generatedAliases [200, 404, 503] = [s "NotFoundError", s "ServiceUnavailableError"] := by decide +kernel
+
+/-- ✗ a declared redirect / informational code: the handler emits `raise Error302(response=response)` and
+    imports `Error302` from the core package, but no such class is ever generated. -/
+theorem aliases_cover_raises_counterexample :
+    raisedAliases [200, 302] = [s "Error302"] ∧ generatedAliases [200, 302] = [] ∧
+    raisedAliases [101, 404] = [s "Error101", s "NotFoundError"] ∧ generatedAliases [101, 404] = [s "NotFoundError"] := by
+  decide +kernel
+
+/-- Exactly the raised codes outside `[400, 600)` are left without a class. -/
+theorem uncovered_iff (ops : List (List Nat)) (op : List Nat) (hop : op ∈ ops) (c : Nat)
+    (hc : c ∈ raisedCodes op) :
+    aliasName c ∉ generatedAliases ops.flatten ↔ isErrorCode c = false := by
+  constructor
+  · intro h
+    cases he : isErrorCode c with
+    | false => rfl
+    | true => exact absurd (aliases_cover_raises_partial ops op hop c hc he) h
+  · intro he hm
+    unfold generatedAliases at hm
+    obtain ⟨c', hc', heq⟩ := List.mem_map.mp hm
+    have := Pog.Reg.aliasName_injective c' c heq
+    subst this
+    rw [mem_generatedCodes] at hc'
+    rw [he] at hc'
+    cases hc'.2
 
 end Pog.C01
